@@ -1,5 +1,6 @@
 import GoPlugin.Props.C05
 import GoPlugin.Props.C04
+import GoPlugin.Props.C18
 import GoPlugin.Generated.Facts
 /- C05 at the facts extracted from the current source. -/
 namespace GoPlugin.Instance.C05
@@ -26,5 +27,9 @@ theorem holds_cmd_kill_reaches (c : CmdRunner.CmdCfg) : CmdRunner.killReaches Fa
 theorem holds_failed_runner_start_is_killed :
     (Kill.killStartFailed Facts.kill).returns = true ∧ (Kill.killStartFailed Facts.kill).procDead = true :=
   ⟨(Props.C04.failed_runner_start_is_killed _ (by decide)).1, (Props.C04.failed_runner_start_is_killed _ (by decide)).2.2.1⟩
+
+/-- a custom-runner launch that fails before there is a runner leaves no socket directory (C18's fact) -/
+theorem holds_no_dir_without_runner : Resources.dirLeftWithoutRunner Facts.resources = false :=
+  Props.C18.no_dir_without_runner _ (by decide)
 
 end GoPlugin.Instance.C05
